@@ -289,7 +289,73 @@ pub fn relabelled_rp(st: &mut Stats) {
     }
 }
 
+/// C03: credentials whose private scalar is stored in another encoding than the 32 bytes the
+/// library writes (imported keys): a leading zero byte or two (ASN.1 / BigInteger habit), trailing
+/// zeros, 31 bytes, 64 bytes, empty.  Whatever the library makes of them - refuse, or accept -
+/// an assertion it returns verifies under the credential's PUBLIC key.
+fn odd_scalar_one(how: u8, client: bool) -> Vec<(String, String)> {
+    // encodings 3 and 6 use a scalar whose first byte is zero: its 31-byte form (leading zero
+    // stripped) and its 33-byte form denote the same number
+    let mut d = fixed_scalar(2);
+    if how == 3 || how == 6 {
+        d[0] = 0;
+    }
+    let (x, y) = public_xy_from_scalar(&d);
+    let enc: Vec<u8> = match how {
+        0 => [vec![0u8], d.to_vec()].concat(),
+        1 => [vec![0u8, 0], d.to_vec()].concat(),
+        2 => [d.to_vec(), vec![0u8]].concat(),
+        3 => d[1..].to_vec(),
+        4 => [d.to_vec(), d.to_vec()].concat(),
+        5 => vec![],
+        6 => [vec![0u8], d.to_vec()].concat(),
+        _ => [vec![0xffu8], d.to_vec()].concat(),
+    };
+    let key = coset::CoseKeyBuilder::new_ec2_priv_key(coset::iana::EllipticCurve::P_256, x.to_vec(), y.to_vec(), enc.clone()).algorithm(coset::iana::Algorithm::ES256).build();
+    let pk = Passkey { key, credential_id: cred_id(2).into(), rp_id: "example.com".into(), user_handle: Some(vec![7, 7].into()), counter: Some(1), extensions: Default::default() };
+    let out = par::catch(|| {
+        let store = Shared::new(RefStore::with(vec![pk.clone()]));
+        let mut a = Authenticator::new(Aaguid::new_empty(), store, ScriptedUv::consenting(Log::new()));
+        if client {
+            let mut c = passkey_client::Client::new(a);
+            let url = url::Url::parse("https://example.com").unwrap();
+            let opts = request_options(Auth { allow: Some(vec![cred_id(2)]), ..Default::default() });
+            block_on(c.authenticate(&url, opts, passkey_client::DefaultClientData)).map(|r| (r.response.authenticator_data.to_vec(), r.response.signature.to_vec(), rp::sha256(&r.response.client_data_json).to_vec())).map_err(|e| format!("{e:?}"))
+        } else {
+            let req = ga_request("example.com", Some(vec![cred_id(2)]), false, true, true, false, None);
+            let cdh = req.client_data_hash.to_vec();
+            block_on(a.get_assertion(req)).map(|r| (r.auth_data.to_vec(), r.signature.to_vec(), cdh)).map_err(|e| format!("{e:?}"))
+        }
+    });
+    match out {
+        Err(p) => vec![("panic".to_string(), format!("a stored private scalar of {} bytes (encoding {how}): {p}", enc.len()))],
+        Ok(Err(_)) => vec![],
+        Ok(Ok((ad, sig, cdh))) => {
+            let mut msg = ad;
+            msg.extend_from_slice(&cdh);
+            match rp::verifying_key(&x, &y).and_then(|k| rp::ecdsa_verify(&k, &msg, &sig).map(|_| ())) {
+                Ok(()) => vec![],
+                Err(e) => vec![("assertion-signature".to_string(), format!("the credential's private scalar is stored as {} bytes (encoding {how}); the library returned an assertion whose signature does not verify under the credential's public key: {e}", enc.len()))],
+            }
+        }
+    }
+}
+pub fn odd_scalars(st: &mut Stats) {
+    for how in 0..8u8 {
+        for client in [false, true] {
+            let case = json!({"odd_scalar": {"how": how, "client": client}});
+            st.case(&(how, client, "odd-scalar"), true, "odd-scalar-encoding");
+            for (k, d) in odd_scalar_one(how, client) {
+                st.finding(Finding::new(format!("odd-scalar/kind={k}"), d, case.clone()));
+            }
+        }
+    }
+}
+
 pub fn replay(case: &Value) -> Option<Vec<Finding>> {
+    if let Some(r) = case.get("odd_scalar") {
+        return Some(odd_scalar_one(r["how"].as_u64()? as u8, r["client"].as_bool()?).into_iter().map(|(k, d)| Finding::new(format!("odd-scalar/kind={k}"), d, case.clone())).collect());
+    }
     if let Some(r) = case.get("relabel") {
         return Some(relabel_one(r["how"].as_u64()? as u8, r["counter"].as_u64().map(|c| c as u32), r["client"].as_bool()?).into_iter().map(|(k, d)| Finding::new(format!("relabelled-rp/kind={k}"), d, case.clone())).collect());
     }
